@@ -14,35 +14,85 @@ Inductive mop : Type :=
 | MFresh                        (* x = Point() : a free leaf point *)
 | MEval (f : nat) (p : pdict)   (* g, fx = f.oracle(p) : fresh gradient leaf, fresh value leaf *)
 | MStat (f : nat)               (* xs = f.stationary_point() : fresh leaf point, EMPTY gradient, fresh value leaf *)
-| MProx (f : nat) (p : pdict) (gamma : Q).
+| MProx (f : nat) (p : pdict) (gamma : Q)
                                 (* x, gx, fx = proximal_step(p, f, gamma) (PEPit/primitive_steps/proximal_step.py):
                                    gx = Point(); fx = Expression(); x = p - gamma * gx; f.add_point((x, gx, fx)) *)
+| MLinOpt (f : nat) (dir : pdict)
+                                (* x, gx, fx = linear_optimization_step(dir, f) (primitive_steps/linear_optimization_step.py):
+                                   x = Point(); gx = -dir; fx = Expression(); f.add_point((x, gx, fx)) *)
+| MInexact (f : nat) (p : pdict) (relative : bool) (eps : Q)
+                                (* x, dx0, fx0 = inexact_gradient_step(p, f, gamma, eps, notion) (inexact_gradient_step.py):
+                                   gx0, fx0 = f.oracle(p); dx0 = Point();
+                                   f.add_constraint((gx0 - dx0) ** 2 - eps ** 2 [* gx0 ** 2] <= 0);
+                                   the returned x = p - gamma * dx0 is not recorded anywhere *)
+| MLineSearch (f : nat) (x0 : pdict) (dirs : list pdict).
+                                (* x, gx, fx = exact_linesearch_step(x0, f, dirs) (exact_linesearch_step.py):
+                                   x = Point(); gx, fx = f.oracle(x); f.add_constraint((x - x0) * gx == 0);
+                                   for d in dirs: f.add_constraint(d * gx == 0) *)
 
 Definition msample : Type := (pdict * pdict * edict)%type.
 
 Record mstate : Type := mkM {
   m_np : nat;                               (* Point.counter *)
   m_ne : nat;                               (* Expression.counter *)
-  m_samples : list (nat * msample)          (* (function id, recorded triple), in recording order *)
+  m_samples : list (nat * msample);         (* (function id, recorded triple), in recording order *)
+  m_cons : list (nat * (edict * sense))     (* (function id, constraint added to that function by a step) *)
 }.
 
-Definition minit : mstate := mkM 0 0 [].
+Definition minit : mstate := mkM 0 0 [] [].
+
+(** the accuracy constraint of inexact_gradient_step, as the operator overloads build it: gx0 is leaf n, dx0 leaf
+    S n (same formula as the one the translator reads into Gen/Steps.v) *)
+Definition inexact_formula (relative : bool) : cterm :=
+  if relative
+  then CLeS (XSub (XSq (PSub (PVar 0) (PVar 1))) (XScal (SPow (SPar 0) 2) (XSq (PVar 0)))) (SNum 0)
+  else CLeS (XSubS (XSq (PSub (PVar 0) (PVar 1))) (SPow (SPar 0) 2)) (SNum 0).
+Definition inexact_vp (n : nat) : nat -> pdict :=
+  fun v => match v with O => [(n, 1%Q)] | _ => [(S n, 1%Q)] end.
+Definition inexact_cons (n : nat) (relative : bool) (eps : Q) : edict * sense :=
+  compileC (fun _ => eps) (inexact_vp n) (fun _ => []) (inexact_formula relative).
+
+(** the orthogonality constraints of exact_linesearch_step: x is leaf n, gx leaf S n (same formulas as the ones the
+    translator reads into Gen/Steps.v) *)
+Definition ls_vp0 (n : nat) (x0 : pdict) : nat -> pdict :=
+  fun v => match v with O => [(n, 1%Q)] | S O => x0 | _ => [(S n, 1%Q)] end.
+Definition ls_cons0 (n : nat) (x0 : pdict) : edict * sense :=
+  compileC (fun _ => 0%Q) (ls_vp0 n x0) (fun _ => [])
+           (CEqS (XInner (PSub (PVar 0) (PVar 1)) (PVar 2)) (SNum 0)).
+Definition ls_vp (n : nat) (d : pdict) : nat -> pdict :=
+  fun v => match v with O => d | _ => [(S n, 1%Q)] end.
+Definition ls_cons (n : nat) (d : pdict) : edict * sense :=
+  compileC (fun _ => 0%Q) (ls_vp n d) (fun _ => []) (CEqS (XInner (PVar 0) (PVar 1)) (SNum 0)).
 
 Definition mstep (s : mstate) (o : mop) : mstate :=
   match o with
-  | MFresh => mkM (S (m_np s)) (m_ne s) (m_samples s)
+  | MFresh => mkM (S (m_np s)) (m_ne s) (m_samples s) (m_cons s)
   | MEval f p =>
       mkM (S (m_np s)) (S (m_ne s))
-          (m_samples s ++ [(f, (p, [(m_np s, 1%Q)], [(KF (m_ne s), 1%Q)]))])
+          (m_samples s ++ [(f, (p, [(m_np s, 1%Q)], [(KF (m_ne s), 1%Q)]))]) (m_cons s)
   | MStat f =>
       mkM (S (m_np s)) (S (m_ne s))
-          (m_samples s ++ [(f, ([(m_np s, 1%Q)], [], [(KF (m_ne s), 1%Q)]))])
+          (m_samples s ++ [(f, ([(m_np s, 1%Q)], [], [(KF (m_ne s), 1%Q)]))]) (m_cons s)
   | MProx f p gamma =>
       (* [gamma * gx] is Point.__rmul__ (no pruning), [p - ...] is Point.__sub__ (merge, then prune);
          add_point prunes the three dictionaries in place, which changes nothing: the point is already pruned,
          the two others are fresh leaves *)
       mkM (S (m_np s)) (S (m_ne s))
-          (m_samples s ++ [(f, (prune (p_sub p (p_scal gamma [(m_np s, 1%Q)])), [(m_np s, 1%Q)], [(KF (m_ne s), 1%Q)]))])
+          (m_samples s ++ [(f, (prune (p_sub p (p_scal gamma [(m_np s, 1%Q)])), [(m_np s, 1%Q)], [(KF (m_ne s), 1%Q)]))]) (m_cons s)
+  | MLinOpt f dir =>
+      (* [-dir] is Point.__neg__ (a scaling by -1, no pruning); add_point prunes it in place *)
+      mkM (S (m_np s)) (S (m_ne s))
+          (m_samples s ++ [(f, ([(m_np s, 1%Q)], prune (p_neg dir), [(KF (m_ne s), 1%Q)]))]) (m_cons s)
+  | MInexact f p relative eps =>
+      (* the oracle call (as MEval), then the fresh leaf dx0 = S (m_np s), then the constraint on f *)
+      mkM (S (S (m_np s))) (S (m_ne s))
+          (m_samples s ++ [(f, (p, [(m_np s, 1%Q)], [(KF (m_ne s), 1%Q)]))])
+          (m_cons s ++ [(f, inexact_cons (m_np s) relative eps)])
+  | MLineSearch f x0 dirs =>
+      (* the fresh leaf x = m_np s, the oracle call at it (gradient leaf S (m_np s), value leaf), the constraints *)
+      mkM (S (S (m_np s))) (S (m_ne s))
+          (m_samples s ++ [(f, ([(m_np s, 1%Q)], [(S (m_np s), 1%Q)], [(KF (m_ne s), 1%Q)]))])
+          (m_cons s ++ (f, ls_cons0 (m_np s) x0) :: map (fun d => (f, ls_cons (m_np s) d)) dirs)
   end.
 
 Definition mrun (ops : list mop) (s : mstate) : mstate := fold_left mstep ops s.
@@ -59,6 +109,10 @@ Definition op_wf (s : mstate) (o : mop) : bool :=
   match o with
   | MEval _ p => keys_below (m_np s) p
   | MProx _ p gamma => keys_below (m_np s) p && nodupb (keys p) && qpos gamma
+  | MLinOpt _ dir => keys_below (m_np s) dir
+  | MInexact _ p _ _ => keys_below (m_np s) p
+  | MLineSearch _ x0 dirs =>
+      keys_below (m_np s) x0 && nodupb (keys x0) && forallb (fun d => keys_below (m_np s) d && nodupb (keys d)) dirs
   | _ => true
   end.
 
@@ -66,4 +120,12 @@ Fixpoint mwf (ops : list mop) (s : mstate) : bool :=
   match ops with
   | [] => true
   | o :: ops' => op_wf s o && mwf ops' (mstep s o)
+  end.
+
+(** a linear-optimization step whose direction is the zero vector records a sample with an EMPTY gradient
+    dictionary, which PEPit then also lists as a stationary point of the function *)
+Definition linopt_dir_nonzero (o : mop) : bool :=
+  match o with
+  | MLinOpt _ dir => match prune (p_neg dir) with [] => false | _ => true end
+  | _ => true
   end.
